@@ -355,6 +355,10 @@ func (c *genctx) genResp() respSpec {
 func (c *genctx) genServerScenario(bad bool) *scenario {
 	r := c.r
 	sc := &scenario{cfg: srvCfg{maxStreams: r.pick(100, 100, 5, 3), maxHeaderList: r.pick(1<<20, 1<<20, 400), maxBody: r.pick(4<<20, 4<<20, 1500)}}
+	if r.chance(4) && sc.cfg.maxHeaderList == 1<<20 {
+		// a negative MaxHeaderListSize switches the check off (and nothing is announced)
+		sc.cfg.maxHeaderList = -1
+	}
 	if r.chance(10) && sc.cfg.maxStreams == 100 && sc.cfg.maxHeaderList == 1<<20 {
 		// the configuration glue (Impl/ServerSetup.v): the same limits reached through defaults - zero / negative
 		// values given to ConfigureServer, or no ServerConfig at all (ConfigureServerAndConfig)
@@ -1400,6 +1404,12 @@ func genServer(c *genctx) {
 		}
 		if strings.Contains(res, "G") {
 			c.st.result("some-goaway-or-G")
+		}
+		switch sc.cfg.ctor {
+		case 1:
+			c.st.result("built-from-zero-or-negative-config")
+		case 2:
+			c.st.result("built-by-ConfigureServerAndConfig")
 		}
 		c.emit(kind, line, res, "-")
 	}
